@@ -320,6 +320,36 @@ class C11:
                 if len(got) != len(exp) or any(g is not e for g, e in zip(got, exp)):
                     desc = [next((c for c, s in sent.items() if s is g), "?") for g in got]
                     fails.append(("delivery", f"subscriber of {ch} received the events dispatched on {desc}, expected {[ch] if exp else []}"))
+        # the same bound signal after every listener has come and gone
+        for ch in chans:
+            ci, k, attr = ch
+            if getattr(insts[(ci, k)], attr) is not bound[ch]:
+                fails.append(("identity", f"{ch}: after its listeners had subscribed and unsubscribed the attribute yields a different bound signal"))
+        # class-level use inside a LIST of signals (module-level stream_events / wait_event)
+        from asphalt.core import stream_events as _stream_events, wait_event as _wait_event
+
+        some_bound = bound[chans[0]]
+        for cls, m in sigmap.items():
+            decls = [getattr(cls, a) for a in m if isinstance(getattr(cls, a), Signal)]
+            if not decls:
+                continue
+            for what, lst in (("stream", [decls[0], decls[-1]]), ("stream", [some_bound, decls[0]]), ("wait", [decls[-1], decls[0]]), ("wait", [some_bound, decls[-1]])):
+                try:
+                    if what == "stream":
+                        async with _stream_events(lst):
+                            pass
+                    else:
+                        with anyio.CancelScope() as sc:
+                            sc.cancel()
+                            await _wait_event(lst)
+                        if sc.cancelled_caught:
+                            fails.append(("unbound", f"wait_event over a list containing the class-level {cls.__name__} signal started waiting"))
+                            continue
+                    fails.append(("unbound", f"{what} over a list containing a class-level signal of {cls.__name__} did not raise UnboundSignal"))
+                except UnboundSignal:
+                    pass
+                except BaseException as e:  # noqa: BLE001
+                    fails.append(("unbound", f"{what} over a list containing a class-level signal of {cls.__name__} raised {e!r} instead of UnboundSignal"))
         # class-level use
         for cls, m in sigmap.items():
             for attr in m:
